@@ -17,6 +17,7 @@ type Sched struct {
 	e          *Env
 	Execute    *ssa.Function // (*Node).Execute
 	IsReady    *ssa.Function
+	Counter    *ssa.Function // by role: the function whose result the launch gate compares with maxActiveRuns (set by c15Gate)
 	IsSucceed  *ssa.Function // by role: the predicate of Status() that walks the nodes (set by c04StatusTable)
 	Launch     *ssa.Go       // the unique `go` whose closure reaches Execute
 	Loop       *ssa.Function // the scheduling loop: the function the launch belongs to in the virtual inlining view
